@@ -68,7 +68,7 @@ func (p pixSpec) bytes() []byte {
 	case "fill":
 		return bytes.Repeat([]byte{p.fill}, p.n)
 	case "adlerstress":
-		return adlerStress(p.n)
+		return adlerStress(p.n, int(p.seed))
 	}
 	out := make([]byte, p.n)
 	s := p.seed
@@ -90,15 +90,15 @@ func (p pixSpec) token() string {
 	case "fill":
 		return fmt.Sprintf("fill:%02x:%d", p.fill, p.n)
 	case "adlerstress":
-		return fmt.Sprintf("adlerstress:%d", p.n)
+		return fmt.Sprintf("adlerstress:%d:%d", p.n, p.seed)
 	}
 	return fmt.Sprintf("seeded:%d:%d", p.seed, p.n)
 }
 
-// adlerStress is the worst case for the 5552-byte chunking of updateAdler32 when used as a
-// one-row gray8 image: after the first 5552 stream bytes (filter byte + 5551 pixels) the sum `a`
-// is 65520, the largest reduced value, and every following byte is 0xFF.
-func adlerStress(n int) []byte {
+// adlerStress is the worst case for a c-byte chunking of updateAdler32 (c = 5552 in the source)
+// when used as a one-row gray8 image: after the first c stream bytes (filter byte + c-1 pixels) the
+// sum `a` is 65520, the largest reduced value, and every following byte is 0xFF.
+func adlerStress(n, c int) []byte {
 	out := make([]byte, n)
 	for i := range out {
 		switch {
@@ -106,7 +106,7 @@ func adlerStress(n int) []byte {
 			out[i] = 0xFF
 		case i == 256:
 			out[i] = 239
-		case i < 5551:
+		case i < c-1:
 			out[i] = 0
 		default:
 			out[i] = 0xFF
@@ -388,22 +388,38 @@ func (q *seq) encode(c encCase) int {
 	} else if !bytes.Equal(got, want) {
 		q.fail("png.Decode-pixels:"+fname, "image/png pixels differ from the input")
 	}
-	// oracle 3 (optional): Wuffs' own std/png decoder, regenerated from the working tree
-	if wuffs != nil && (len(all) < 1<<20 || wuffsBig > 0) {
-		if len(all) >= 1<<20 {
+	// oracle 3 (advisory, sampled): Wuffs' own std/png decoder
+	if wuffs != nil {
+		run := false
+		switch {
+		case len(all) >= 1<<20:
+			run = wuffsBig > 0
 			wuffsBig--
+		case len(all) >= 60000:
+			run = wuffsMid > 0
+			wuffsMid--
+		default:
+			run = wuffsSmall > 0
+			wuffsSmall--
 		}
-		if bad := wuffs.check(f, c.w, c.h, all, want); bad != "" {
-			q.fail("wuffs-std/png:"+fname, bad)
+		if run {
+			if bad := wuffs.check(f, c.w, c.h, all, want); bad != "" {
+				r.Count("wuffs-oracle:DISAGREES")
+				if wuffsNotes < 5 {
+					wuffsNotes++
+					r.Note("advisory: Wuffs std/png (release snapshot) disagrees on " + c.line() + ": " + bad)
+				}
+			} else {
+				r.Count("wuffs-oracle:agrees")
+			}
 		}
-		r.Count("wuffs-oracle:checked")
 	}
 	r.Extra("oracle_cases", q.bump())
 	r.Nontrivial(fmt.Sprintf("%s %dx%d s%d %s", fname, c.w, c.h, c.stride, c.pix.kind))
 	// tie Spec.lean to the reference walker on this output
 	if len(all) <= 1500 {
 		q.specdecode(all, hlib.Hex(all))
-	} else if specBudget >= len(all) {
+	} else if specBudget >= len(all) && len(all) <= 3<<20 { // (List-based decoder: keep its input moderate)
 		specBudget -= len(all)
 		q.specdecode(all, "last")
 	}
@@ -411,7 +427,7 @@ func (q *seq) encode(c encCase) int {
 }
 
 var wuffs *wuffsOracle
-var wuffsBig = 12 // how many outputs of 1 MiB or more go through the Wuffs decoder
+var wuffsBig, wuffsMid, wuffsSmall, wuffsNotes = 8, 150, 80, 0 // sampling budget of the advisory oracle
 
 var oracleCases int
 var seenSlack = map[string]bool{}
@@ -641,7 +657,13 @@ func generate(r *hlib.Run) []encCase {
 	// B3. Adler-32 worst case at the 5552-byte chunk boundary (gray8, one row), in the first
 	//     block and spilling into later blocks.
 	for _, n := range []int{5551 + 5552, 20000, capF - 1, capF + 3*5552, capF + capL + 7000} {
-		add(encCase{w: n, h: 1, stride: n, depth: 8, ct: 1, pix: pixSpec{kind: "adlerstress", n: n}, failAt: -1, tag: "B3:adler-stress"})
+		add(encCase{w: n, h: 1, stride: n, depth: 8, ct: 1, pix: pixSpec{kind: "adlerstress", n: n, seed: 5552}, failAt: -1, tag: "B3:adler-stress"})
+	}
+	//     ... and the same for chunkings a little coarser than the source's (ordinary data for the
+	//     unchanged code; the worst case for a code change that enlarges the chunk).
+	for _, c := range []int{5553, 5554, 5556, 5560, 5568, 5600, 5808, 6000, 8192} {
+		n := 3*c + rng.Intn(100)
+		add(encCase{w: n, h: 1, stride: n, depth: 8, ct: 1, pix: pixSpec{kind: "adlerstress", n: n, seed: uint64(c)}, failAt: -1, tag: "B3:adler-stress"})
 	}
 	// C. extremes 1xN / Nx1 and tiny.
 	for _, f := range fmts {
